@@ -1,4 +1,6 @@
 import SlipVerif.Model.Conc
+import SlipVerif.Model.Lin
+import SlipVerif.Model.Close
 import SlipVerif.Driver.Util
 --! namespace: conc
 /- line protocol for C17 (all numbers decimal, `-` = empty list):
@@ -14,6 +16,15 @@ import SlipVerif.Driver.Util
                   (push pop select incr lock handler fail)
        -> ok q=<0|1> steps=<n> guarded=<0|1> distinct=<0|1> finals=<v,..> got=<per thread #received>
              items=<per channel sorted p.v list;..> left=<per channel #buffered> fifo=.. mutex=.. counter=..
+     conc lin <history>             history = i.t.k,p.t.k.v,r.t.k,..  in trace order (invocation of an
+                                    increment of counter k by thread t / its point: value v read /
+                                    its response); operations = Lin.opsOf, verdict = Lin.linCheck
+       -> ok pass n=<operations> | ok fail malformed | ok fail times | ok fail order
+          | ok fail seq at=<index of the first operation the sequential replay rejects> k=<counter>
+     conc close <cap|-> <nconsumers> <seed> <fuel> <pushes per producer>
+                                    producers push, the channel is closed after the last push,
+                                    consumers range over it: Close.step under a seeded random schedule
+       -> ok ended=<n> steps=<n> closed=<0|1> sent=<n> received=<n> left=<n> exact=<0|1> got=<per consumer>
    The semantics executed by `run` and the checkers are the definitions of Model/Conc.lean the
    theorems of Theorems/C17.lean are about. -/
 namespace SlipVerif.Driver.Conc
@@ -216,11 +227,90 @@ def handleRun (seed fuel caps guards nch nctr : String) (toks : List String) : S
           s!"ok q={b q} steps={steps} guarded={b (S.guarded g)} distinct={b (S.distinctSends nch)} finals={finals} got={got} items={items} left={left} fifo={pf fifo} mutex={pf mtx} counter={pf ctr}"
   | _, _, _, _, _, _ => "bad-request args"
 
+/-! ### `close`: producers, one `channel-close` after the last push and range consumers under a
+    seeded random schedule of Model/Close.lean -/
+
+def closeLoop (cap : Option Nat) (nc : Nat) (counts : List Nat) :
+    Nat → Nat → Close.St → List Nat → Nat → Close.St × Nat
+  | 0, _, st, _, steps => (st, steps)
+  | fuel + 1, x, st, done, steps =>
+      if (List.range nc).all (fun c => st.ended.contains c) then (st, steps)
+      else
+        let x' := lcg x
+        let np := counts.length
+        let i := (x' / 8589934592) % (np + 1 + 2 * nc)
+        let doneOf := fun (p : Nat) => match done[p]? with
+          | some d => d
+          | none => 0
+        let countOf := fun (p : Nat) => match counts[p]? with
+          | some n => n
+          | none => 0
+        let act : Close.Act :=
+          if i < np then .push i (doneOf i)
+          else if i = np then .close
+          else if i < np + 1 + nc then .recv (i - np - 1)
+          else .fin (i - np - 1 - nc)
+        let enabled : Bool := match act with
+          | .push p _ => doneOf p < countOf p
+          | .close => (List.range np).all (fun p => countOf p ≤ doneOf p)
+          | _ => true
+        if !enabled then closeLoop cap nc counts fuel x' st done steps
+        else match Close.step cap false st act with
+          | none => closeLoop cap nc counts fuel x' st done steps
+          | some st' =>
+              let done' := match act with
+                | .push p _ => done.set p (doneOf p + 1)
+                | _ => done
+              closeLoop cap nc counts fuel x' st' done' (steps + 1)
+
+def handleClose (cap nc seed fuel counts : String) : String :=
+  let capO : Option (Option Nat) := if cap = "-" then some none else cap.toNat?.map some
+  match capO, nc.toNat?, seed.toNat?, fuel.toNat?, parseNats counts with
+  | some cap, some nc, some seed, some fuel, some counts =>
+      let (st, steps) := closeLoop cap nc counts fuel seed Close.init (counts.map (fun _ => 0)) 0
+      let b := fun (x : Bool) => if x then "1" else "0"
+      let got := joinNats ((List.range nc).map (fun c => (Close.got st c).length))
+      s!"ok ended={st.ended.length} steps={steps} closed={b st.closed} sent={st.sent.length} received={(Close.received st).length} left={st.queue.length} exact={b (Close.received st == st.sent)} got={got}"
+  | _, _, _, _, _ => "bad-request args"
+
+def parseHEv (s : String) : Option Lin.HEv :=
+  match s.splitOn "." with
+  | ["i", t, k] => do
+      let t ← t.toNat?
+      let k ← k.toNat?
+      some (.inv t k)
+  | ["p", t, k, v] => do
+      let t ← t.toNat?
+      let k ← k.toNat?
+      let v ← v.toNat?
+      some (.pt t k v)
+  | ["r", t, k] => do
+      let t ← t.toNat?
+      let k ← k.toNat?
+      some (.res t k)
+  | _ => none
+
+def handleLin (hist : String) : String :=
+  match (splitList hist ",").mapM parseHEv with
+  | none => "bad-request parse"
+  | some h =>
+      match Lin.opsOf h with
+      | none => "ok fail malformed"
+      | some ops =>
+          if Lin.linCheck ops then s!"ok pass n={ops.length}"
+          else if !ops.all Lin.timesOk then "ok fail times"
+          else if !Lin.ptSorted ops then "ok fail order"
+          else match Lin.firstBad (fun _ => 0) 0 ops with
+            | some (i, o) => s!"ok fail seq at={i} k={o.k}"
+            | none => "ok fail seq"
+
 def handle (entry : String) (args : List String) : String :=
   match entry, args with
   | "fifo", [q, sent, recv, left] => handleFifo q sent recv left
   | "mutex", [q, log] => handleMutex q log
   | "counter", [reads, finals] => handleCounter reads finals
+  | "lin", [hist] => handleLin hist
+  | "close", [cap, nc, seed, fuel, counts] => handleClose cap nc seed fuel counts
   | "run", seed :: fuel :: caps :: guards :: nch :: nctr :: toks => handleRun seed fuel caps guards nch nctr toks
   | _, _ => "bad-request entry"
 
